@@ -33,7 +33,7 @@ class Ctx:
         self.tier = tier
         self.seed = seed
         self.t0 = time.time()
-        self.work = os.path.join(WORK, "%s-%s" % (pid, tier))
+        self.work = os.path.join(WORK, "%s-%s%s" % (pid, tier, "" if REPO == "/repo" else "-" + re.sub(r"[^A-Za-z0-9]", "_", REPO)))
         shutil.rmtree(self.work, ignore_errors=True)
         os.makedirs(self.work, exist_ok=True)
         self.states = 0
@@ -60,18 +60,41 @@ class Ctx:
 # --------------------------------------------------------------------------------------------
 # cargo
 
+REPO = os.environ.get("VERIF_REPO", "/repo").rstrip("/")
+
+
+def harness_dir():
+    """/verif/harness builds against /repo. For experiments on another tree (a scratch git worktree
+    with a candidate fix or a seeded mutant: env VERIF_REPO=<dir>) a private copy of the harness crate
+    with rewritten path dependencies and its own target dir is used, so /repo is never touched."""
+    if REPO == "/repo":
+        return HARNESS
+    tag = re.sub(r"[^A-Za-z0-9]", "_", REPO)
+    hd = os.path.join(WORK, "harness-" + tag)
+    os.makedirs(hd, exist_ok=True)
+    subprocess.run(["rsync", "-a", "--delete", "--exclude", "target", HARNESS + "/", hd + "/"], check=True)
+    ct = os.path.join(hd, "Cargo.toml")
+    with open(ct) as f:
+        txt = f.read()
+    with open(ct, "w") as f:
+        f.write(txt.replace('path = "/repo', 'path = "%s' % REPO))
+    return hd
+
+
 def cargo_build(binname):
-    """Rebuild the harness binary from /repo's current working tree (path dependencies), hooks on."""
+    """Rebuild the harness binary from the repository's current working tree (path dependencies), hooks on."""
     env = dict(os.environ)
     env["CARGO_NET_OFFLINE"] = "true"
     t = time.time()
+    hd = harness_dir()
     p = subprocess.run(["cargo", "build", "--release", "--offline", "--bin", binname],
-                       cwd=HARNESS, env=env, stdout=subprocess.PIPE, stderr=subprocess.STDOUT, text=True)
+                       cwd=hd, env=env, stdout=subprocess.PIPE, stderr=subprocess.STDOUT, text=True)
     if p.returncode != 0:
-        sys.stderr.write(p.stdout[-6000:])
+        errs = [l for l in p.stdout.splitlines()]
+        sys.stderr.write("\n".join(errs[-80:]) + "\n")
         raise ToolError("cargo build failed for %s" % binname)
-    log("built %s in %.1fs" % (binname, time.time() - t))
-    return os.path.join(HARNESS, "target", "release", binname)
+    log("built %s in %.1fs (repo %s)" % (binname, time.time() - t, REPO))
+    return os.path.join(hd, "target", "release", binname)
 
 
 # --------------------------------------------------------------------------------------------
@@ -179,7 +202,8 @@ def tlc_mc(ctx, module, cfg, workers=8, timeout=1500, coverage_actions=None, **k
     """(A) model-check the design spec; invariant violation in the design = tool error (the design
     spec is wrong or the bounded model is), never a property verdict about the code."""
     extra = ["-coverage", "1"] if coverage_actions else None
-    rc, lines = tlc(ctx, module, cfg, workers=workers, timeout=timeout, extra=extra, **kw)
+    kw.pop("extra_opts", None)
+    rc, lines = tlc(ctx, module, cfg, workers=workers, timeout=timeout, extra=(extra or []) + ["-nowarning"], **kw)
     if rc != 0:
         sys.stderr.write("\n".join(lines[-60:]) + "\n")
         raise ToolError("design model %s: TLC rc=%d" % (module, rc))
@@ -378,8 +402,9 @@ def validate_with_findings(ctx, module, traces, nontrivial=None, **kw):
 
 
 def record_violation(ctx, trace, diag):
-    os.makedirs(REPLAYS, exist_ok=True)
-    path = os.path.join(REPLAYS, "%s-%s-%s.json" % (ctx.id, ctx.tier, trace.get("id")))
+    rdir = REPLAYS if REPO == "/repo" else os.path.join(ctx.work, "replays")
+    os.makedirs(rdir, exist_ok=True)
+    path = os.path.join(rdir, "%s-%s-%s.json" % (ctx.id, ctx.tier, trace.get("id")))
     if len(ctx.violations) < 200:
         with open(path, "w") as f:
             json.dump({"property": ctx.id, "tier": ctx.tier, "seed": ctx.seed, "diagnostics": diag,
@@ -388,13 +413,22 @@ def record_violation(ctx, trace, diag):
 
 
 def sample(ctx, objs, n=3):
+    """record a few actual cases/traces in the evidence file (compact JSON text)"""
     for o in objs[:n]:
         s = json.dumps(o, separators=(",", ":"))
         if len(s) > 1500:
             s = s[:1500] + "...(truncated)"
-            ctx.samples.append(s)
-        else:
-            ctx.samples.append(o)
+        ctx.samples.append(s)
+
+
+ELEM_INVS = ["ExpZero", "ExpStep", "ExpNegFunctional", "ExpPosFunctional", "ExpInverse", "ExpMonotone", "LnOne",
+             "LnProduct", "LnMonotone", "LnMantMonotone", "LnMantEnd", "LnExp", "LnFxInt", "LnExpNeg", "SigmoidSym",
+             "SigmoidDef", "SigmoidMono", "SigmoidZero", "InterpBetween"]
+
+
+def mc_elem(ctx):
+    """Self-check of the exp/ln/sigmoid tables used by Elem.tla (tables are never trusted)."""
+    return tlc_mc(ctx, "MC_Elem", {"invariants": ELEM_INVS}, workers=4, extra_opts=None)
 
 
 def finish(ctx, level="model_checking"):
@@ -427,8 +461,9 @@ def finish(ctx, level="model_checking"):
         "wall_s": round(time.time() - ctx.t0, 2),
         "violations": len(ctx.violations),
     }
-    os.makedirs(EVID, exist_ok=True)
-    with open(os.path.join(EVID, ctx.id + ".json"), "w") as f:
+    evdir = EVID if REPO == "/repo" else ctx.work   # experiments on scratch trees never touch evidence/
+    os.makedirs(evdir, exist_ok=True)
+    with open(os.path.join(evdir, ctx.id + ".json"), "w") as f:
         json.dump(ev, f, indent=1)
     if ctx.violations:
         for (cid, path, diag) in ctx.violations[:10]:
